@@ -105,7 +105,7 @@ def eval_case(case):
     maxrel = {}
 
     def bad(obs, msg, exp=None, got=None):
-        out.append(({"cls": "Polyhedron", "obs": obs, "tags": tags, "msg": msg},
+        out.append(({"cls": "Polyhedron", "obs": obs, "tags": list(tags), "msg": msg},
                     {"case": case, "obs": obs, "expected": fl(exp) if exp is not None else None, "observed": got}))
 
     verts = np.array(fl(pl.points(rec["v"])), dtype=float)
@@ -185,8 +185,20 @@ def eval_case(case):
                 bad("is_inside", f"batch result shape {got.shape}, expected {want.shape}")
             elif not np.array_equal(got.astype(bool), want):
                 j = int(np.nonzero(got.astype(bool) != want)[0][0])
+                # is the misjudged point (an exact non-member) in the plane of a face it is not on?  (a side face: on the line of
+                # a polygon edge; a cap: z = 0 or z = h) - the tie-breaking of the winding number then sees determinants that are
+                # zero up to rounding (known finding)
+                qq = q[keep[j]]
+                pol2 = [(2 * a, 2 * b) for a, b in rec["poly"]]
+                on_line = any((pol2[(i + 1) % n][0] - pol2[i][0]) * (qq[1] - pol2[i][1]) == (pol2[(i + 1) % n][1] - pol2[i][1]) * (qq[0] - pol2[i][0])
+                              for i in range(n))
+                in_plane = (on_line or qq[2] in (0, 2 * rec["h"])) and not want[j]
+                if in_plane:
+                    tags.append("query_in_face_plane_outside_face")
                 bad("is_inside", f"half-lattice point {q[keep[j]]} reported {bool(got[j])}, exact membership {bool(want[j])} "
                     f"(cap shifts {kt}, {kb})")
+                if in_plane:
+                    tags.remove("query_in_face_plane_outside_face")
         except Exception as exn:
             bad("is_inside", f"raised {type(exn).__name__}: {str(exn)[:200]} (cap shifts {kt}, {kb})")
     return out, {"maxrel": maxrel, "unclear": unclear}
